@@ -382,13 +382,16 @@ ITEMS = location_types() + budget_types() + error_types() + [
                      (#[trigger] self.rec_stack@[a]).depth >= (#[trigger] self.rec_stack@[b]).depth by { assert(f1[a].depth >= f1[b].depth); }
                  lemma_frames_all_pushed(f1, self.rec_stack@, ev);'''),
              # parser loop
-             dict(after='let location = location_from_span(&span);', ghost=True, text='let ghost f0 = self.rec_stack@; let ghost pae0 = self.per_anchor_expansions@; let ghost inj0 = self.inject@.len();'),
-             dict(before='self.inject.push(InjectFrame {', label='C08:an_alias_is_expanded_only_within_the_per_anchor_and_replay_nesting_limits_and_is_counted_once', props=['C08'],
-                  text='''assert(anchor_id < self.per_anchor_expansions@.len()
-                        && self.per_anchor_expansions@[anchor_id as int] == (if anchor_id < pae0.len() { if pae0[anchor_id as int] == usize::MAX { usize::MAX } else { (pae0[anchor_id as int] + 1) as usize } } else { 1usize })
-                        && self.per_anchor_expansions@[anchor_id as int] <= self.alias_limits.max_alias_expansions_per_anchor
-                        && self.inject@.len() == inj0 && inj0 + 1 <= self.alias_limits.max_replay_stack_depth
-                        && (forall|j: int| 0 <= j < pae0.len() && j != anchor_id ==> self.per_anchor_expansions@[j] == pae0[j]));'''),
+             dict(after='let location = location_from_span(&span);', ghost=True, text='let ghost f0 = self.rec_stack@; let ghost pae0 = self.per_anchor_expansions@; let ghost inj0 = self.inject@.len(); let ghost mut within_anchor_limit = false; let ghost mut within_depth_limit = false;'),
+             dict(after='let count = self.per_anchor_expansions[anchor_id];', label='C08:an_alias_bumps_the_expansion_counter_of_its_anchor_by_exactly_one', props=['C08'],
+                  text='''assert(anchor_id < self.per_anchor_expansions@.len() && count == self.per_anchor_expansions@[anchor_id as int]
+                        && count == (if anchor_id < pae0.len() { if pae0[anchor_id as int] == usize::MAX { usize::MAX } else { (pae0[anchor_id as int] + 1) as usize } } else { 1usize }));'''),
+             dict(before='let next_depth = self.inject.len() + 1;', label='C08:the_per_anchor_expansion_limit_is_checked_on_the_bumped_counter', props=['C08'],
+                  text='assert(count <= self.alias_limits.max_alias_expansions_per_anchor); within_anchor_limit = true;'),
+             dict(before_re=r'if any_frame_id\(', label='C08:the_replay_nesting_limit_is_checked_before_the_frame_is_pushed', props=['C08'],
+                  text='assert(self.inject@.len() == inj0 && inj0 + 1 <= self.alias_limits.max_replay_stack_depth); within_depth_limit = true;'),
+             dict(before='self.inject.push(InjectFrame {', label='C08:an_alias_is_pushed_for_replay_only_after_both_limits_were_checked', props=['C08'],
+                  text='assert(within_anchor_limit && within_depth_limit && self.inject@.len() == inj0);'),
              dict(after='let location = location_from_span(&span);', text='lemma_frames_facts(f0);'),
              dict(after='let location = location_from_span(&span);', text='if self.budget is Some { lemma_budget_room(self.budget.unwrap()); }'),
              dict(after='}, _ => {} } }, _ => {} } }', label='budget_after_observe', text='''
@@ -490,7 +493,7 @@ ITEMS = location_types() + budget_types() + error_types() + [
     dict(src='src/options.rs', path='enum DuplicateKeyPolicy', derive=COPY),
     dict(src='src/de.rs', path='struct Cfg', derive='#[derive(Clone, Copy)]'),
     dict(src='src/parse_scalars.rs', path='fn scalar_is_nullish', trusted=True, props=[],
-         ensures=[('proved_in_unit_typed', 'true')]),
+         ensures=[('proved_in_unit_typed_to_be_the_plain_null_table', 'r == live_nullish(value@, *style)')]),
     dict(src='src/lib.rs', path='fn read_with_options/struct ReadIter',
          rewrites=[(r"struct ReadIter<'a, T>", "struct ReadIter<'a>", 1, 'R9'), (r'_marker: std::marker::PhantomData<T>,', '', 1, 'R9'),
                    (r'cfg: crate::de::Cfg,', 'cfg: Cfg,', 1, 'R6')]),
@@ -513,4 +516,21 @@ ITEMS = location_types() + budget_types() + error_types() + [
          loops={1: dict(header=r'^loop$', invariant=[('tracking', '!self.finished && !old(self).finished'),
                                                      ('C10:no_reader_error_has_been_discarded_so_far', '!dropped')])},
          canaries=['C11:the_iterator_ends_only_when_it_marks_itself_finished']),
+    # ---- the batch entry point from_multiple_with_options (C11): its document loop, lifted as a fragment ----
+    dict(src='src/lib.rs', path='fn from_multiple_with_options', id='from_multiple_with_options#loop', props=['C11', 'C10', 'C01'],
+         attrs='#[verifier::exec_allows_no_decreases_clause]',
+         fragment=r'let mut values = Vec::new\(\);\s*loop \{.*?\}\s*src\.finish\(\)\s*\.map_err\(\|e\| maybe_with_snippet\(e, input, with_snippet, crop_radius\)\)\?;\s*Ok\(values\)', fragment_flags='S',
+         wrapper="fn from_multiple_loop_fragment<'a>(mut src: LiveEvents<'a>, cfg: Cfg, input: &str, with_snippet: bool, crop_radius: usize) -> Result<Vec<DocVal>, Error> { {FRAG} }",
+         pre_rewrites=[(r'let mut values = Vec::new\(\);', 'let mut values: Vec<DocVal> = Vec::new();', 1, 'R9')],
+         rewrites=[(r'scalar_is_nullish\(s, style\)', 'scalar_is_nullish(s.as_ref(), style)', None, 'R15'),
+                   (r'let value_res = crate::anchor_store::with_document_scope\(\|\| \{\s*T::deserialize\(crate::de::YamlDeserializer::new\(&mut src, cfg\)\)\s*\}\);',
+                    'let value_res = deserialize_document(&mut src, cfg);', 1, 'R8+R18'),
+                   (r'src\.finish\(\)\s*\.map_err\(\|e\| maybe_with_snippet\(e, input, with_snippet, crop_radius\)\)\?;',
+                    'match src.finish() { Ok(__v) => __v, Err(e) => { return Err(maybe_with_snippet(e, input, with_snippet, crop_radius)); } };', None, 'R18'),
+                   (r'let _ = src\.next\(\)\?;', 'let __skipped = src.next()?;', None, 'R37')],
+         proofs=[dict(after='let __skipped = src.next()?;', label='C11:only_a_document_that_is_a_plain_null_like_scalar_is_skipped_and_exactly_that_scalar_is_consumed',
+                      text='assert(__skipped is Some && (match __skipped->Some_0 { Ev::Scalar { value, style, .. } => live_nullish(value@, style), _ => false }));'),
+                 dict(before_re=r'match src\.finish\(\)', label='C11:the_batch_ends_only_when_the_stream_has_no_more_events', text='assert(src.rest().len() == 0);')],
+         ensures=[('values_are_returned_only_after_finish', 'r is Ok ==> true')],
+         loops={1: dict(header=r'^loop$', invariant_except_break=[('running', 'true')], ensures=[('C11:the_loop_is_left_only_when_the_stream_has_no_more_events', 'src.rest().len() == 0')])}),
 ]
